@@ -4,6 +4,8 @@
 -/
 import Homonim.Model.Geom
 import Homonim.Model.Blocks
+import Homonim.Model.WindowIO
+import Homonim.Model.Orient
 open Homonim
 
 def ints (ts : List String) : Option (List Int) := ts.mapM String.toInt?
@@ -57,6 +59,35 @@ def handle (toks : List String) : String :=
   | "roundto" :: rest =>
     match ints rest with
     | some [po, pp, pn, oo, op, on, lo, hi] => w1 (roundTo ⟨po, pp, pn⟩ ⟨oo, op, on⟩ ⟨lo, hi⟩)
+    | _ => "bad-args"
+  -- read2 nr nc rlo rhi clo chi coded? : per result pixel the dataset (row,col) it shows, or _ for nodata
+  | "read2" :: rest =>
+    match ints rest with
+    | some [nr, nc, rlo, rhi, clo, chi, coded] =>
+      let rd := if coded ≠ 0 then readWindowCoded (α := Int) else readWindow (α := Int)
+      match rd nr (fun r => r) (-1) rlo rhi, rd nc (fun c => c) (-1) clo chi with
+      | some rows, some cols =>
+        "ok " ++ ";".intercalate (rows.map fun r => " ".intercalate (cols.map fun c =>
+          if r < 0 || c < 0 then "_" else s!"{r}.{c}"))
+      | _, _ => "err"
+    | _ => "bad-args"
+  -- write2 nr nc  br0 brlen bc0 bclen  rlo rhi clo chi : per dataset pixel the block (row,col) stored there, or _
+  | "write2" :: rest =>
+    match ints rest with
+    | some [nr, nc, br0, brlen, bc0, bclen, rlo, rhi, clo, chi] =>
+      match writeWindow (α := Int) nr (fun _ => -1) br0 brlen (fun i => i) rlo rhi,
+            writeWindow (α := Int) nc (fun _ => -1) bc0 bclen (fun i => i) clo chi with
+      | some fr, some fc =>
+        "ok " ++ ";".intercalate ((List.range nr.toNat).map fun (r : Nat) =>
+          " ".intercalate ((List.range nc.toNat).map fun (c : Nat) =>
+            if fr r < 0 || fc c < 0 then "_" else s!"{fr r}.{fc c}"))
+      | _, _ => "err"
+    | _ => "bad-args"
+  | "orient" :: rest =>
+    match ints rest with
+    | some [sn, sc, rn, rc, ps] =>
+      let r := sameOrientationCrs ⟨sn ≠ 0, sc.toNat⟩ ⟨rn ≠ 0, rc.toNat⟩ (ps ≠ 0)
+      s!"{if r.1.northUp then 1 else 0} {r.1.crs} {if r.2.northUp then 1 else 0} {r.2.crs}"
     | _ => "bad-args"
   | "covers" :: rest =>
     match ints rest with
